@@ -187,6 +187,7 @@ pub struct PieceReader {
     pos: usize,
     pieces: Vec<usize>,
     k: usize,
+    pub fail_at_end: bool,
 }
 impl PieceReader {
     pub fn new(data: Vec<u8>, pieces: Vec<usize>) -> PieceReader {
@@ -195,12 +196,16 @@ impl PieceReader {
             pos: 0,
             pieces,
             k: 0,
+            fail_at_end: false,
         }
     }
 }
 impl Read for PieceReader {
     fn read(&mut self, buf: &mut [u8]) -> std::io::Result<usize> {
         let rest = self.data.len() - self.pos;
+        if rest == 0 && self.fail_at_end && !buf.is_empty() {
+            return Err(std::io::Error::new(std::io::ErrorKind::Other, "simulated failure of the body source after its last byte"));
+        }
         if rest == 0 || buf.is_empty() {
             return Ok(0);
         }
@@ -251,14 +256,9 @@ pub fn build_response(spec: &RespSpec) -> ResponseBox {
                 .filter(|h| h.2 == 0)
                 .filter_map(|h| mk_header(&h.0, &h.1))
                 .collect();
-            Response::new(
-                StatusCode(spec.status),
-                hs,
-                PieceReader::new(spec.body.0.clone(), spec.pieces.clone()),
-                spec.declared,
-                None,
-            )
-            .boxed()
+            let mut rd = PieceReader::new(spec.body.0.clone(), spec.pieces.clone());
+            rd.fail_at_end = spec.fail_at_end;
+            Response::new(StatusCode(spec.status), hs, rd, spec.declared, None).boxed()
         }
     };
     let apply_data = |r: ResponseBox| -> ResponseBox {
@@ -380,9 +380,10 @@ fn run_program(mut rq: Request, sh: &Arc<Shared>, rx: usize) {
             });
             let rd = rq.as_reader();
             for &s in v {
-                let mut buf = vec![0u8; s.max(1)];
+                let mut buf = vec![0u8; s];
                 reads += 1;
                 match rd.read(&mut buf) {
+                    Ok(0) if s == 0 => {}
                     Ok(0) => {
                         eof = true;
                         break;
@@ -721,8 +722,17 @@ fn receiver_thread(server: Arc<Server>, sh: Arc<Shared>, rx: usize, r: Receiver)
     }
 }
 
-fn count_finals(bytes: &[u8]) -> usize {
-    crate::httpmodel::parse_responses(bytes, &|_| false)
+/// Which of the requests sent so far are HEAD requests (their responses carry no body).
+fn head_flags(sent: &[u8]) -> Vec<bool> {
+    crate::httpmodel::parse_requests(sent)
+        .iter()
+        .filter(|m| m.class == crate::httpmodel::Class::Valid)
+        .map(|m| m.is_head)
+        .collect()
+}
+
+fn count_finals(bytes: &[u8], heads: &[bool]) -> usize {
+    crate::httpmodel::parse_responses(bytes, &|k| heads.get(k).copied().unwrap_or(false))
         .msgs
         .iter()
         .filter(|m| m.complete && (m.status == 101 || !(100..200).contains(&m.status)))
@@ -792,10 +802,12 @@ fn client_thread(addr: simrt::net::Addr, sh: Arc<Shared>, ci: usize, sc: ConnScr
         });
     }
     let mut sent = 0usize;
+    let mut sent_all: Vec<u8> = Vec::new();
     for st in &sc.steps {
         match st {
             ClientStep::Send(b) => {
                 c.send(&b.0);
+                sent_all.extend_from_slice(&b.0);
                 sent += b.0.len();
                 sh.obs.lock().unwrap().conns[ci].sent = sent;
             }
@@ -813,7 +825,7 @@ fn client_thread(addr: simrt::net::Addr, sh: Arc<Shared>, ci: usize, sc: ConnScr
             },
             ClientStep::AwaitFinals(n) => loop {
                 let r = c.received();
-                if count_finals(&r) >= *n {
+                if count_finals(&r, &head_flags(&sent_all)) >= *n {
                     cev("await_finals:ok");
                     break;
                 }
@@ -848,6 +860,30 @@ fn client_thread(addr: simrt::net::Addr, sh: Arc<Shared>, ci: usize, sc: ConnScr
                 }
             },
             ClientStep::JumpWall(d) => simrt::jump_wall_clock(*d),
+            ClientStep::AwaitAfterFinals(k) => loop {
+                let r = c.received();
+                let heads = head_flags(&sent_all);
+                let p = crate::httpmodel::parse_responses(&r, &|i| heads.get(i).copied().unwrap_or(false));
+                let mut finals = 0;
+                let mut beyond = false;
+                for m in p.msgs.iter().filter(|m| m.complete) {
+                    if finals >= *k {
+                        beyond = true;
+                        break;
+                    }
+                    if m.status == 101 || !(100..200).contains(&m.status) {
+                        finals += 1;
+                    }
+                }
+                if beyond {
+                    cev("await_after_finals:ok");
+                    break;
+                }
+                if !c.wait_more(r.len()) {
+                    cev("await_after_finals:closed");
+                    break;
+                }
+            },
             ClientStep::AwaitLen(n) => loop {
                 let have = c.received_len();
                 if have >= *n {
